@@ -322,7 +322,8 @@ class Gen:
         rng = self.rng
         p = self.p
         n_ops = rng.randint(*p.get("n_ops", (3, 10)))
-        weights = p.get("weights", {"fit": 1, "pfit": 3, "query": 4, "add": 1.5, "rem": 1, "warm": 0})
+        weights = dict(p.get("weights", {"fit": 1, "pfit": 3, "query": 4, "add": 1.5, "rem": 1, "warm": 0}))
+        weights.setdefault("swap", 0.6)
         kinds = list(weights)
         # first op: usually a fit (sometimes partial_fit as the initial fit, or an arm change first)
         u = rng.random()
@@ -351,6 +352,13 @@ class Gen:
                 self.op_warm()
             elif k == "bad":
                 self.op_bad()
+            elif k == "swap":
+                # replace an arm by another one (same number of arms), then query
+                n0 = len(self.ops)
+                self.op_rem()
+                if len(self.ops) > n0:
+                    self.op_add()
+                    self.op_query(rng.choice(["pred", "pexp"]))
         if p.get("end_query", True):
             self.op_query("pexp")
             if rng.random() < 0.5:
